@@ -490,7 +490,7 @@ def gen_big_case(rng, i):
 
 def run(ctx, n=None):
     rng = ctx.rng
-    n = n or (680 if ctx.quick() else 8000)
+    n = n or (600 if ctx.quick() else 8000)
     pending = []
     for i in range(n):
         one(ctx, gen_case(rng, ctx.quick(), i), pending)
